@@ -28,6 +28,8 @@ type TriggerPool struct {
 	// jobsToExecute holds a number of pending work to execute
 	jobsToExecute jobCounter
 	stopWorkers   atomic.Bool
+	// limitReached is guarded by jobsAvailableCond.L
+	limitReached bool
 }
 
 // Trigger will trigger the execution of a numJobs in the worker pool,
@@ -82,7 +84,11 @@ func (p *TriggerPool) stop() {
 }
 
 func (p *TriggerPool) maxIterationsReached() {
+	p.jobsAvailableCond.L.Lock()
+	p.limitReached = true
 	p.jobsToExecute.set(0)
+	p.jobsAvailableCond.L.Unlock()
+
 	verifhook.Yield("pool.limit.beforeCancel")
 	p.workerCtxCancel()
 }
@@ -91,9 +97,15 @@ func (p *TriggerPool) sendJobsForExecution(numJobs int) {
 	p.jobsAvailableCond.L.Lock()
 
 	jobsDiscarded := p.jobsToExecute.set(numJobs)
+	limitReached := p.limitReached
 	p.jobsAvailableCond.Broadcast()
 
 	p.jobsAvailableCond.L.Unlock()
+
+	// work that can't start because max iterations has been reached is not dropped work
+	if limitReached {
+		return
+	}
 
 	verifhook.Yield("pool.send.beforeRecordDrops")
 	for range jobsDiscarded {
